@@ -10,6 +10,7 @@
 import ClairModel.Proofs.Coalesce
 import ClairModel.Proofs.LayerFS
 import ClairModel.Proofs.MergeOrder
+import ClairModel.Proofs.DistFS
 
 -- every variable of a property statement is bound explicitly: a misspelt name is an error, not a new variable
 set_option autoImplicit false
@@ -416,5 +417,143 @@ theorem index_report_order_counterexample :
   let js : Kind × List Layer := (.lang, [{ hash := "L0", pkgs := [{ id := "1", name := "ms", version := "2.0.0", kind := "binary", arch := "", src := "", db := "nodejs:node_modules/ms/package.json", fp := "node_modules/ms/package.json" }], repos := [{ id := "r2", name := "npm", key := "", uri := "" }] }, { hash := "L1" }])
   let wh : Kind × List Layer := (.wh, [{ hash := "L0" }, { hash := "L1", files := [{ path := "site/.wh.ms-2.0.0.dist-info", kind := "whiteout" }] }])
   refine ⟨["L0", "L1"], [py, js, wh], [js, py, wh], _, _, List.Perm.swap js py [wh], rfl, rfl, ?_, ?_⟩ <;> decide
+
+/-! ## Part 6 — what exactly an environment says: introducing layer, distribution, repositories -/
+
+/-- `linux_dist_choice` (linux/distsearcher.go): every environment of the linux coalescer's report, for ALL
+    artifact lists: it names the first layer holding the package's (name, database, version), and the
+    distribution of `DistSearcher.Search` for that layer — the layer's own first distribution, else the first
+    distribution of the nearest earlier layer that has one, else of the nearest later one, else none. -/
+theorem linux_dist_choice (arts : List Layer) (r : Report) (h : linuxCoalesce arts = .ok r)
+    (id : String) (es : List Env) (hes : aget id r.envs = some es) (e : Env) (he : e ∈ es) :
+    ∃ p ∈ allPkgs arts, p.id = id ∧ ∃ pre a post, arts = pre ++ a :: post ∧ a.hash = e.intro ∧
+      a.pkgs.any (sameKey p) = true ∧ (∀ b ∈ pre, b.pkgs.any (sameKey p) = false) ∧
+      e.distId = (((match a.dists.head? with
+        | some d => some d
+        | none => match firstSome (distSlots pre).reverse with
+          | some d => some d
+          | none => firstSome (distSlots post)) : Option Dist).map (·.id)).getD "" := by
+  unfold linuxCoalesce at h
+  rcases linuxFill_from _ _ _ h id es hes e he with ⟨es0, h0, _⟩ | ⟨db, p, hm, hid, henv⟩
+  · simp at h0
+  · obtain ⟨hp, _⟩ := linux_entries_ok db p hm
+    obtain ⟨pre, a, post, h1, h2, h3, h4, h5⟩ := linuxEnv_exact henv
+    exact ⟨p, hp, hid, pre, a, post, h1, h2, h3, h4, h5⟩
+
+/-- `rhel_one_environment_per_id`: the rhel coalescer reports every package id with exactly one environment
+    (the final loop skips an id it has already put into the report). -/
+theorem rhel_one_environment_per_id (arts : List Layer) (r : Report) (h : rhelCoalesce arts = .ok r)
+    (id : String) (es : List Env) (hes : aget id r.envs = some es) : es.length = 1 :=
+  (rhelCoalesce_oneEnv h).2 id es hes
+
+/-- … so a package recorded in two package databases of the last layer is reported for one of them only,
+    where linux.Coalescer reports both. -/
+theorem rhel_two_databases_counterexample :
+    ∃ arts r r', rhelCoalesce arts = .ok r ∧ linuxCoalesce arts = .ok r' ∧
+      ((aget "1" r.envs).getD []).map (·.db) = ["var/lib/rpm"] ∧
+      ((aget "1" r'.envs).getD []).map (·.db) = ["var/lib/rpm", "usr/lib/sysimage/rpm"] := by
+  refine ⟨[{ hash := "L0", pkgs := [
+      { id := "1", name := "bash", version := "5", kind := "binary", arch := "x86_64", src := "", db := "var/lib/rpm", fp := "" },
+      { id := "1", name := "bash", version := "5", kind := "binary", arch := "x86_64", src := "", db := "usr/lib/sysimage/rpm", fp := "" }] }],
+    _, _, rfl, rfl, ?_, ?_⟩ <;> decide
+
+/-- `rhel_env_exact` (whole-report form of the rhel coalescer's walk), for ALL artifact lists: every
+    environment of the report was built at the first layer — of the artifacts after Red Hat repositories have
+    been shared between the layers — that holds the package in the environment's database; it names that
+    layer, the distribution current there (the last layer up to it with a distribution, else the first
+    distribution of any layer, else none) and exactly that layer's repositories. -/
+theorem rhel_env_exact (arts : List Layer) (r : Report) (h : rhelCoalesce arts = .ok r)
+    (id : String) (es : List Env) (hes : aget id r.envs = some es) (e : Env) (he : e ∈ es) :
+    ∃ pre a post, rhelShare arts = pre ++ a :: post ∧ (∃ p ∈ a.pkgs, p.db = e.db ∧ p.id = id) ∧
+      (∀ b ∈ pre, ∀ p ∈ b.pkgs, ¬ (p.db = e.db ∧ p.id = id)) ∧
+      e.intro = a.hash ∧ e.repoIds = a.repos.map (·.id) ∧
+      e.distId = distIdOf (curAfter (firstDist (rhelShare arts)) (pre ++ [a])) := by
+  obtain ⟨pre, a, post, h1, h2, h3, h4⟩ := rhelCoalesce_env_exact h hes he
+  refine ⟨pre, a, post, h1, h2, h3, ?_, ?_, ?_⟩ <;> rw [h4] <;> rfl
+
+/-- Sharing leaves digests, packages and distributions of every layer alone … -/
+theorem rhel_share_keeps_layers (arts : List Layer) :
+    (rhelShare arts).map (fun a => (a.hash, a.pkgs, a.dists)) = arts.map (fun a => (a.hash, a.pkgs, a.dists)) :=
+  rhelShare_core arts
+
+/-- … "if Red Hat product information is found, it taints all the layers": when some layer carries a
+    repository with key `rhel-cpe-repository`, every layer does after sharing … -/
+theorem rhel_share_taints_all_layers (arts : List Layer) (h : ∃ a ∈ arts, filterRH a.repos ≠ []) :
+    ∀ a' ∈ rhelShare arts, filterRH a'.repos ≠ [] :=
+  rhelShare_taints arts h
+
+/-- … and sharing invents nothing: every repository of a layer after sharing is a repository of some layer. -/
+theorem rhel_shared_repos_come_from_layers (arts : List Layer) :
+    ∀ a' ∈ rhelShare arts, ∀ x ∈ a'.repos, ∃ a ∈ arts, x ∈ a.repos :=
+  rhelShare_repos_from arts
+
+/-- Consequently every environment of an image with Red Hat repositories carries one. -/
+theorem rhel_env_has_redhat_repository (arts : List Layer) (hrh : ∃ a ∈ arts, filterRH a.repos ≠ [])
+    (r : Report) (h : rhelCoalesce arts = .ok r)
+    (id : String) (es : List Env) (hes : aget id r.envs = some es) (e : Env) (he : e ∈ es) :
+    ∃ x, x.key = rhelRepoKey ∧ x.id ∈ e.repoIds ∧ ∃ a ∈ arts, x ∈ a.repos := by
+  obtain ⟨pre, a, post, h1, _, _, _, h5, _⟩ := rhel_env_exact arts r h id es hes e he
+  have hmem : a ∈ rhelShare arts := by rw [h1]; simp
+  have hne := rhelShare_taints arts hrh a hmem
+  cases hf : filterRH a.repos with
+  | nil => exact absurd hf hne
+  | cons x xs =>
+    have hx : x ∈ filterRH a.repos := by rw [hf]; exact List.mem_cons_self
+    have hx' := List.mem_filter.1 hx
+    refine ⟨x, by simpa using hx'.2, by rw [h5]; exact List.mem_map.2 ⟨x, hx'.1, rfl⟩,
+      rhelShare_repos_from arts a hmem x hx'.1⟩
+
+/-- `index_dist_eq_flatten_partial`: for ALL scanners and ALL layer stacks on which every OS ecosystem's
+    distribution scanner is stable (`DistStable`, decidable: its file is never hidden, and every layer carrying
+    the file makes it say the same), every environment of the finished report names exactly the distribution
+    the same scanner finds on the flattened image — linux ecosystems through `DistSearcher`, rhel ecosystems
+    through the walk's current distribution —, and file ecosystems name none. -/
+theorem index_dist_eq_flatten_partial (S : Scanners) (layers : List FSLayer) (hs : DistStable S layers)
+    (r : Report) (hr : indexModel S layers = some r) (id : String) (es : List Env) (hes : aget id r.envs = some es)
+    (e : Env) (he : e ∈ es) :
+    (∃ d ∈ S.osDbs, e.db = d ∧ e.distId = imgDistId S false d layers) ∨
+    (∃ d ∈ S.rhelDbs, e.db = d ∧ e.distId = imgDistId S true d layers) ∨
+    (e.distId = "" ∧ e.repoIds ≠ []) :=
+  index_dist_eq_flatten hs hr hes he
+
+set_option maxRecDepth 10000 in
+/-- the hypothesis holds on the worked example, with a distribution actually found -/
+theorem dist_stable_example : DistStable Ex.S0 Ex.tameStack ∧ imgDistId Ex.S0 false Ex.dpkgDB Ex.tameStack = "debian-12" := by
+  decide
+
+set_option maxRecDepth 10000 in
+/-- Without `DistStable` the statement is false: after a distribution upgrade (the release file changes from
+    debian 11 to debian 12) a package installed before the upgrade and still installed is tagged with the old
+    distribution, the flattened image says debian 12. -/
+theorem index_dist_upgrade_counterexample :
+    (indexModel Ex.S0 Ex.distUpgrade).map (fun r => (((aget "bash-1" r.envs).getD []).filter (·.db = Ex.dpkgDB)).map (·.distId)) = some ["debian-11"] ∧
+    imgDistId Ex.S0 false Ex.dpkgDB Ex.distUpgrade = "debian-12" := by
+  decide
+
+/-! ## Part 7 — whiteout coalescer and layer order -/
+
+/-- `whiteout/coalescer.go`, for ALL artifact lists: under a layer digest the report holds the last file of
+    all the files the layers with that digest carry (`ir.Files[l.Hash.String()] = f` overwrites) — one file per
+    digest, which is finding whiteout-one-per-layer. -/
+theorem whiteout_coalescer_keeps_last_file_per_digest (arts : List Layer) (r : Report) (h : whCoalesce arts = .ok r)
+    (digest : String) : aget digest r.files = lastVal digest (whPairs arts) ∧ r.pkgs = [] ∧ r.envs = [] := by
+  simp only [whCoalesce, Except.ok.injEq] at h
+  subst h
+  refine ⟨?_, rfl, rfl⟩
+  simp only
+  rw [whFiles_eq, aget_foldl_aset_last]
+  cases lastVal digest (whPairs arts) <;> rfl
+
+/-- `layerSorter`: a digest stands for its LAST position in the manifest, a digest that is not in the manifest
+    for position 0; `isChildOf(a, b)` compares these numbers. -/
+theorem layer_sorter_last_position (pre post : List String) (h : String) (hn : h ∉ post) :
+    sorterIdx (pre ++ h :: post) h = pre.length ∧ ∀ layers : List String, ∀ x, x ∉ layers → sorterIdx layers x = 0 :=
+  ⟨sorterIdx_split h pre post hn, fun layers x hx => by unfold sorterIdx; exact sorterGo_notin x layers 0 0 hx⟩
+
+/-- The resolver decides by the newest layer among a package's environments: the layer it compares whiteouts
+    with has the largest position of all `IntroducedIn` digests (whatever their order in the list). -/
+theorem resolver_package_layer_is_newest (layers : List String) (e0 : Env) (es : List Env) :
+    sorterIdx layers (pkgLayer layers es e0.intro) = envMax layers (e0 :: es) := by
+  rw [pkgLayer_idx]; rfl
 
 end ClairModel.Props.C01
